@@ -719,7 +719,14 @@ fn main() {
                 format!("states={} transitions={} labels={:x}", s.states, s.transitions, h128(&format!("{:?}", s.labels)))
             }
         };
-        if cmp(&a) != cmp(&b) {
+        // The search stops expanding below a violating transition and gives up a configuration after enough violations, so
+        // with violations present the counts depend on the order of successors: the cross-check is about the machinery on a
+        // conforming subject. (Every violation is still confirmed by replaying its own history before it is reported.)
+        let conforming = a.violating_transitions == 0 && b.violating_transitions == 0;
+        if !conforming {
+            determinism = json!({"runs": 2, "second_run": "reversed successor order, rotated configuration order", "identical": null,
+                                 "note": "not compared: violating transitions were found; each is confirmed by replay"});
+        } else if cmp(&a) != cmp(&b) {
             let mut shown = 0;
             for (k, v) in &a.labels {
                 let w = b.labels.get(k).copied().unwrap_or(0);
@@ -736,7 +743,9 @@ fn main() {
             }
             machinery_error(&format!("nondeterministic search: run 1 [{}] vs run 2 (reversed successor order) [{}]", cmp(&a), cmp(&b)));
         }
-        determinism = json!({"runs": 2, "second_run": "reversed successor order, rotated configuration order", "identical": true, "compared": cmp(&a)});
+        if conforming {
+            determinism = json!({"runs": 2, "second_run": "reversed successor order, rotated configuration order", "identical": true, "compared": cmp(&a)});
+        }
     }
     println!(
         "box {:?}: states={} transitions={} finalize_points={} violating_transitions={} mw_calls={} capped={} wall={:.1}s",
